@@ -157,12 +157,38 @@ Definition c08_sub_ok (mode : N) (log : list event) (log_at : list N) (o : sub_o
    match cons_fold cons0 log with
    | None => false
    | Some cm =>
-       if so_kind o =? 2 then
+       if (so_kind o =? 2) || (so_kind o =? 1) then
+         (* from a number / through a cursor: a consumer starting empty at `start` *)
          match fold_tolerant (so_start o) cons0 recv with
          | Some c' => eqb_list (ids (filter (fun b => so_start o <=? bnum b) (cs_stack c')))
                                (ids (filter (fun b => so_start o <=? bnum b) (cs_stack cm)))
          | None => false end
-       else true
+       else
+         (* from a cursor: the consumer holds what the stream had delivered at the cursor's event *)
+         match so_cur o with
+         | None => true
+         | Some cu =>
+             let matches_cursor (e : event) :=
+               ref_eqb (ecblk e) (cu_blk cu) &&
+               (step_eqb (estep e) (cu_step cu) || (step_eqb (cu_step cu) SNew && step_eqb (estep e) SNewIrr)) in
+             let fix upto (l : list event) (acc : list event) : option (list event) :=
+               match l with
+               | [] => None
+               | e :: l' => if matches_cursor e then Some (acc ++ [e]) else upto l' (acc ++ [e])
+               end in
+             match upto log [] with
+             | None => true
+             | Some pre =>
+                 match cons_fold cons0 pre with
+                 | None => false
+                 | Some ck0 =>
+                     let ck := mkCons (cs_stack ck0) (length (filter (fun b => bnum b <=? rn (cu_lib cu)) (cs_stack ck0))) true in
+                     match fold_tolerant 0 ck recv with
+                     | Some c' => eqb_list (ids (cs_stack c')) (ids (cs_stack cm))
+                     | None => false end
+                 end
+             end
+         end
    end).
 
 Definition c08_prop (k : c08_case) : bool :=
